@@ -96,6 +96,20 @@ def check(k, seed):
     ampycloud.reset_prms()
     if dynamic.AMPYCLOUD_PRMS != defaults:
         fails.append('reset_prms() did not restore the packaged defaults')
+    # edits that change the *key set* of a nested entry, then a named reset
+    dynamic.AMPYCLOUD_PRMS['LOWESS'] = {'frac': 0.5}
+    dynamic.AMPYCLOUD_PRMS['SLICING_PRMS']['height_scale_mode'] = 'shift-and-scale'
+    dynamic.AMPYCLOUD_PRMS['SLICING_PRMS']['height_scale_kwargs'] = {'scale': 1000}
+    del dynamic.AMPYCLOUD_PRMS['MSA_HIT_BUFFER']
+    with warnings.catch_warnings(record=True) as wl3:
+        warnings.simplefilter('always')
+        ampycloud.reset_prms(which=['LOWESS', 'SLICING_PRMS', 'MSA_HIT_BUFFER'])
+    if dynamic.AMPYCLOUD_PRMS != defaults:
+        bad = [k2 for k2 in defaults if dynamic.AMPYCLOUD_PRMS.get(k2, '<missing>') != defaults[k2]]
+        fails.append(f'reset_prms(which=[...]) after key-set changing edits did not restore the packaged defaults of {bad}')
+    if wl3:
+        fails.append(f'reset_prms(which=[...]) warns: {str(wl3[0].message)[:60]}')
+    ampycloud.reset_prms()
     ampycloud.reset_prms(which='MSA')
     dynamic.AMPYCLOUD_PRMS['LOWESS']['frac'] = 0.9
     ampycloud.reset_prms()
